@@ -5,7 +5,7 @@ import datetime as _dt
 import z3
 from . import engine as E
 from .engine import Unmodelled
-from .values import (SymInt, SymBool, SymFloat, SymStr, zint, mkint, mkbool, fdiv, fmod, float_binop, is_numlike,
+from .values import (SymInt, SymBool, SymFloat, SymStr, zint, mkint, mkbool, fdiv, fmod, float_binop, is_numlike, zcp,
                      concretize_int, TWO53)
 from . import models
 
@@ -161,6 +161,11 @@ class SymTimedelta(object):
 
     def __sym_concretize__(self, model):
         return _dt.timedelta(microseconds=model.eval(self.us, model_completion=True).as_long())
+
+
+class HostStamp(_dt.datetime):
+    """a host application's own date-time class (as pandas.Timestamp is): a datetime.datetime by isinstance, not by type()"""
+    pass
 
 
 def td_us(o):
@@ -465,6 +470,48 @@ def fresh_datetime_ord(e, name, ord_min=None, ord_max=None, with_time=False):
 # ------------------------------------------------------------------------------------------------
 # dateutil.parser.parse: not encodable.  On a symbolic string the stub forks into "some naive date-time" and
 # ValueError (both outcomes are explored; which concrete texts are dates is decided by the real dateutil on replay).
+def _iso_contract(e, timestr):
+    """dateutil's documented behaviour on ISO 8601 text: YYYY-MM-DD, optionally followed by a blank or T and hh:mm or
+    hh:mm:ss, denotes exactly that date-time.  Applied only when the SHAPE is provable from the path condition (digits at
+    the digit positions, the separators concrete) and the fields are provably a valid date-time; anything else stays with
+    the generic stub.  Validated against the real dateutil in the selftest."""
+    cps = timestr.cps
+    n = len(cps)
+    if n not in (10, 16, 19):
+        return None
+    shape = 'dddd-dd-dd' + {10: '', 16: 'Tdd:dd', 19: 'Tdd:dd:dd'}[n]
+    vals = []
+    for c, k in zip(cps, shape):
+        if k == 'd':
+            if isinstance(c, int):
+                if not 48 <= c <= 57:
+                    return None
+            elif not e.must(z3.And(c >= 48, c <= 57)):
+                return None
+            vals.append(zcp(c) - 48)
+        elif k == 'T':
+            if isinstance(c, int):
+                if c not in (32, 84):
+                    return None
+            elif not e.must(z3.Or(c == 32, c == 84)):
+                return None
+        elif isinstance(c, int):
+            if c != ord(k):
+                return None
+        elif not e.must(c == ord(k)):
+            return None
+    num = lambda ds: z3.simplify(sum(d * 10 ** (len(ds) - 1 - i) for i, d in enumerate(ds)))
+    y, mo, d = num(vals[0:4]), num(vals[4:6]), num(vals[6:8])
+    h = num(vals[8:10]) if n >= 16 else z3.IntVal(0)
+    mi = num(vals[10:12]) if n >= 16 else z3.IntVal(0)
+    sec = num(vals[12:14]) if n == 19 else z3.IntVal(0)
+    valid = z3.And(y >= 1, mo >= 1, mo <= 12, d >= 1, d <= z_days_in_month(y, mo), h <= 23, mi <= 59, sec <= 59)
+    if not e.must(valid):
+        return None
+    us = z3.simplify(((h * 60 + mi) * 60 + sec) * 10 ** 6)
+    return SymDateTime(z3.simplify(z_ymd2ord(y, mo, d)), us, (y, mo, d))
+
+
 def _dateutil_stub(timestr, *a, **kw):
     if not models.symbolic(timestr):
         from dateutil.parser import parse as real
@@ -482,6 +529,11 @@ def _dateutil_stub(timestr, *a, **kw):
         if d is None:
             raise ValueError('String does not contain a date (dateutil stub)')
         return d
+    iso = _iso_contract(e, timestr)
+    if iso is not None:
+        e.uf_cache[key] = iso
+        log.append((timestr, iso))
+        return iso
     if len(timestr) == 0 or e.choose(2) == 0:
         e.uf_cache[key] = None
         log.append((timestr, None))
@@ -497,3 +549,18 @@ try:
     models.PY_MODELS[_dup.parse] = _dateutil_stub
 except ImportError:
     pass
+
+
+
+class SymHostStamp(SymDateTime):
+    """a symbolic date-time whose Python type is a SUBCLASS of datetime.datetime (host-supplied value)"""
+    __pytype__ = HostStamp
+    __slots__ = ()
+
+    def __sym_concretize__(self, model):
+        d = SymDateTime.__sym_concretize__(self, model)
+        return HostStamp(d.year, d.month, d.day, d.hour, d.minute, d.second, d.microsecond)
+
+
+def as_host_stamp(d):
+    return SymHostStamp(d.ord, d.us, d.ymd)
